@@ -632,8 +632,11 @@ fn match_with_rule<'src>(
 
             asm::RulePatternPart::Whitespace =>
             {
+                // A comment separates tokens just like a blank does
+                // (`ld;* c *; 5`)
                 if !walker.is_over() &&
-                    walker.next_token().kind != syntax::TokenKind::Whitespace
+                    walker.next_token().kind != syntax::TokenKind::Whitespace &&
+                    walker.next_token().kind != syntax::TokenKind::Comment
                 {
                     return vec![];
                 }
